@@ -335,7 +335,27 @@ def _on_alarm(signum, frame):
     raise CaseTimeout()
 
 
-OPS = {'rt': op_rt, 'mc': op_mc, 'fold': op_fold, 'compile': op_compile}
+def op_valeq(case, pm):
+    """value of V (type names and reprs the program itself collects) before / after minify(opts), in this interpreter"""
+    src = get_src(case)
+    try:
+        compile(src, 'valeq_case', 'exec', dont_inherit=True)
+    except Exception:
+        return {'status': 'skip', 'reason': 'uncompilable'}
+    try:
+        out = pm.minify(src, **make_kwargs(pm, case.get('opts') or {}))
+    except Exception as e:
+        return {'status': 'error', 'exc': exc_info(e)}
+    a = _eval_stmt_value(src if not (PY2 and isinstance(src, unicode)) else src.encode('utf-8'))
+    b = _eval_stmt_value(out if not (PY2 and isinstance(out, unicode)) else out.encode('utf-8'))
+    res = {'status': 'held', 'changed': out != src, 'out': out[:400], 'violations': []}
+    if a != b:
+        res['status'] = 'violation'
+        res['violations'].append({'kind': 'value-differs', 'detail': '%r -> %r' % (a[1][:300] if len(a) > 1 else a, b[1][:300] if len(b) > 1 else b)})
+    return res
+
+
+OPS = {'rt': op_rt, 'mc': op_mc, 'fold': op_fold, 'compile': op_compile, 'valeq': op_valeq}
 
 
 def main():
